@@ -6,6 +6,7 @@ against `mirror` (Spec/C05.lean).  See DESIGN.md §5 C05 and design/C05.md."""
 from __future__ import annotations
 
 import asyncio
+import json
 from typing import Any, Dict, List, Optional
 from urllib.parse import urljoin
 from xml.sax.saxutils import escape, quoteattr
@@ -248,13 +249,41 @@ def attr_tok(fn, conv) -> str:
 def dump(dev, depth: int, lines: List[str]) -> None:
     info = dev.device_info
     lines.append(f"odev {depth} {tok_str(dev.device_url)} " + " ".join(o(getattr(info, a)) for a in INFO_ATTRS))
+    svcs = list(dev.services.values())
+
+    def ident(xs, fn) -> str:
+        """position (by object identity) of what an accessor returns; `!` = it raised / returned None / a stranger"""
+        out = []
+        for x in xs:
+            try:
+                got = fn(x)
+            except Exception:  # noqa: BLE001 - a lookup that raises is an observation
+                got = None
+            pos = [i for i, y in enumerate(xs) if y is got]
+            out.append(str(pos[0]) if pos else "!")
+        return ",".join(out) or "~"
+
+    keys = lambda d: ",".join(tok_str(k) for k in d.keys()) or "~"  # noqa: E731
+    lines.append("okeys {} {} {} {}".format(
+        keys(dev.services), keys(dev.embedded_devices),
+        ident(svcs, lambda s: dev.service(s.service_type) if dev.has_service(s.service_type)
+              and dev.find_service(s.service_type) is dev.service(s.service_type) else None),
+        ident(svcs, lambda s: dev.service_id(s.service_id))))
     for i in dev.icons:
         lines.append(f"oicon {tok_str(i.mimetype)} {i.width} {i.height} {i.depth} {tok_str(i.url)}")
     for svc in dev.services.values():
-        assert svc.device is dev
+        if attr_tok(lambda: svc.device, lambda x: "1" if x is dev else "0") != "1":
+            lines.append("olink service.device")
         lines.append("osvc {} {} {} {} {}".format(tok_str(svc.service_id), tok_str(svc.service_type), tok_str(svc.control_url),
                                                 tok_str(svc.event_sub_url), tok_str(svc.scpd_url)))
+        svs, acts = list(svc.state_variables.values()), list(svc.actions.values())
+        lines.append("oskeys {} {} {} {}".format(
+            keys(svc.state_variables), keys(svc.actions),
+            ident(svs, lambda v: svc.state_variable(v.name) if svc.has_state_variable(v.name) else None),
+            ident(acts, lambda a: svc.action(a.name) if svc.has_action(a.name) else None)))
         for sv in svc.state_variables.values():
+            if attr_tok(lambda: sv.service, lambda x: "1" if x is svc else "0") != "1":
+                lines.append("olink state_variable.service")
             optv = lambda v: c08.tok_val(v)  # noqa: E731
             setv = lambda s: ";".join(sorted({c08.tok_val(x) for x in s})) or "~"  # noqa: E731
             lines.append("ovar {} {} {} {} {} {} {}".format(
@@ -279,7 +308,8 @@ def dump(dev, depth: int, lines: List[str]) -> None:
                     tok_str(arg.name), tok_str(arg.direction), tok_str(rsv.name), tok_str(rsv.data_type), bound,
                     pos(act.argument(arg.name, arg.direction)), pos(act.argument(arg.name))))
     for emb in dev.embedded_devices.values():
-        assert emb.parent_device is dev
+        if emb.parent_device is not dev:
+            lines.append("olink embedded.parent_device")
         dump(emb, depth + 1, lines)
 
 
@@ -363,7 +393,10 @@ def run_recipe(ctx: Ctx, recipe: Dict[str, Any], cid: str) -> Case:
     docs[base] = (200, render_description(st, d)) if root is None else tuple(root)
 
     req = FakeRequester(docs)
-    factory = UpnpFactory(req, non_strict=not strict)
+    # the three constructor forms of a non-strict factory
+    ctor = recipe.get("ctor", "non_strict")
+    factory = UpnpFactory(req) if strict else UpnpFactory(req, **{ctor: True})
+    tags.add("ctor:" + ("strict" if strict else ctor))
     loop = asyncio.new_event_loop()
     nontrivial = False
     try:
@@ -375,7 +408,8 @@ def run_recipe(ctx: Ctx, recipe: Dict[str, Any], cid: str) -> Case:
     except AssertionError:
         raise
     except Exception as e:  # noqa: BLE001 - every exception is an observation
-        lines.append("res !" + exc_token(e))
+        from async_upnp_client.exceptions import UpnpError
+        lines.append("res !{} L{}".format(exc_token(e), 1 if isinstance(e, UpnpError) else 0))
         tags.add("res:!" + exc_token(e))
     finally:
         loop.close()
@@ -440,12 +474,23 @@ def g_var(rng, i: int, wf: bool) -> Dict[str, Any]:
     v: Dict[str, Any] = {"name": g_name(rng, i), "type": name, "seAttr": None, "seElem": None, "default": None,
                          "range": None, "allowed": None}
     c = rng.randrange(8)
-    if c < 3:
-        v["seAttr"] = rng.choice(["yes", "no", "yes", "YES", "1", ""])
-    elif c < 5:
-        v["seElem"] = rng.choice(["yes", "no", "yes", "Yes", ""])
-    elif c == 5:
-        v["seAttr"], v["seElem"] = rng.choice([("no", "yes"), ("yes", "no"), ("yes", "yes")])
+    if c < 4:
+        v["seAttr"] = rng.choice(["yes", "no"])
+    elif c < 7:
+        v["seElem"] = rng.choice(["yes", "no"])
+    else:
+        v["seAttr"] = v["seElem"] = rng.choice(["yes", "no"])          # both notations, agreeing
+    if not wf and rng.random() < 0.3:
+        # spellings / conflicts / absence the property does not settle: compared with the model only
+        k = rng.randrange(4)
+        if k == 0:
+            v["seAttr"], v["seElem"] = rng.choice(["YES", "1", "", " yes ", "true"]), None
+        elif k == 1:
+            v["seAttr"], v["seElem"] = None, rng.choice(["Yes", "", "yes\n", "1"])
+        elif k == 2:
+            v["seAttr"], v["seElem"] = rng.choice([("no", "yes"), ("yes", "no")])
+        else:
+            v["seAttr"] = v["seElem"] = None
     if rng.random() < 0.4:
         srt = c08.comparable_sorted(pool)
         lo, hi = c08.wire_py(srt[0]), c08.wire_py(srt[-1])
@@ -487,6 +532,8 @@ def g_scpd(rng, wf: bool) -> Dict[str, Any]:
         for k in range(rng.randrange(0, 5) if names else 0):
             g = {"name": g_name(rng, k), "direction": rng.choice(["in", "out", "in", "out", "inout", "IN"]),
                  "related": rng.choice(names)}
+            if rng.random() < 0.12:
+                g["related"] = rng.choice([" ", "\n  ", "\t"]) + g["related"] + rng.choice(["", " ", "\n"])   # padded like names
             if not wf and rng.random() < 0.15:
                 which = rng.choice(["name", "direction", "related", "undeclared"])
                 if which == "undeclared":
@@ -519,8 +566,21 @@ def corrupt(rng, doc: Dict[str, Any]) -> Dict[str, Any]:
         return {"kind": "foreign", "which": rng.choice(sorted(FOREIGN))}
     if c < 6:
         return {"kind": "unparsable", "text": rng.choice(GARBAGE)}
-    if c < 9:
+    if c < 8:
         return {**doc, "vars": None}                  # state table removed (actions kept)
+    if c < 9 and doc.get("kind") == "scpd" and doc["vars"]:
+        # incomplete in another way: a variable without (supported) data type / an argument naming no declared variable
+        d2 = json.loads(json.dumps(doc))
+        k = rng.randrange(3)
+        args = [g for a in (d2["actions"] or []) for g in a["args"]]
+        if k == 0 or not args:
+            rng.choice(d2["vars"])["type"] = rng.choice([None, "ui3", "String"])
+        elif k == 1:
+            rng.choice(args)["related"] = "NoSuchVariable"
+        else:
+            gone = d2["vars"].pop(rng.randrange(len(d2["vars"])))      # a declared variable removed
+            _ = gone
+        return d2
     return {"kind": "status", "n": rng.choice([404, 500, 503])}
 
 
@@ -587,7 +647,9 @@ def gen_recipe(rng, wf: bool) -> Dict[str, Any]:
     max_depth = rng.choice([0, 1, 1, 2, 3])
     p_corrupt = rng.choice([0.0, 0.0, 0.15, 0.4])
     dev = g_device(rng, 0, max_depth, wf, p_corrupt, [0])
-    return {"base": rng.choice(BASES), "strict": rng.random() < 0.5, "dev": dev, "style": rng.randrange(1 << 30)}
+    return {"base": rng.choice(BASES), "strict": rng.random() < 0.5, "dev": dev, "style": rng.randrange(1 << 30),
+            "ctor": rng.choice(["non_strict", "non_strict", "disable_state_variable_validation",
+                                "disable_unknown_out_argument_error"])}
 
 
 def leaf_dev(services=None, icons=None, embedded=None, n=1) -> Dict[str, Any]:
@@ -648,6 +710,17 @@ def corpus() -> List[Dict[str, Any]]:
                         {"name": "OutIn", "args": [{"name": "X", "direction": "out", "related": "B"},
                                                    {"name": "X", "direction": "in", "related": "A"}]}]}
     out.append({"base": b, "strict": True, "dev": leaf_dev([svc(1, doca)]), "style": 9})
+    # F05e: incomplete documents in non-strict mode (every constructor form), F05f: padded relatedStateVariable
+    inc1 = {"kind": "scpd", "vars": [var("A", "ui2"), var("B", None)], "actions": None}
+    inc2 = {"kind": "scpd", "vars": [var("A", "ui2")],
+            "actions": [{"name": "Act", "args": [{"name": "x", "direction": "in", "related": "Nope"}]}]}
+    for ctor in ("non_strict", "disable_state_variable_validation", "disable_unknown_out_argument_error"):
+        out.append({"base": b, "strict": False, "ctor": ctor, "dev": leaf_dev([svc(1, doc), svc(2, inc1), svc(3, inc2)]), "style": 10})
+    pad = {"kind": "scpd", "vars": [var(" Volume ", "ui2")],
+           "actions": [{"name": "Set", "args": [{"name": "V", "direction": "in", "related": " Volume "},
+                                                {"name": "W", "direction": "out", "related": "Volume\n"}]}]}
+    for strict in (True, False):
+        out.append({"base": b, "strict": strict, "dev": leaf_dev([svc(1, pad)]), "style": 11})
     # two services sharing one SCPD document
     out.append({"base": b, "strict": True, "dev": leaf_dev([svc(1, doc), {**svc(2, doc), "scpd": "scpd1.xml"}]), "style": 8})
     return out
